@@ -443,13 +443,13 @@ pub fn header(it: &Item, cx: &mut MCtx) -> R<MHeader> {
         _ => return rej("hdr.not-map"),
     };
     let mut h = MHeader::default();
-    let mut seen: Vec<MLabel> = Vec::new();
+    let mut seen: std::collections::HashSet<MLabel> = std::collections::HashSet::new();
     for (k, v) in m {
         let l = label(k)?;
         if seen.contains(&l) {
             return rej_c("hdr.dup", Class::Dup);
         }
-        seen.push(l.clone());
+        seen.insert(l.clone());
         match l {
             MLabel::Int(1) => h.alg = Some(reg_label_priv(v, Reg::Algorithm).map_err(|e| Rej { rule: match e.rule { "label.kind" => "hdr.alg.kind", "label.out-of-range" => "hdr.alg.range", _ => "hdr.alg.unregistered" }, class: e.class })?),
             MLabel::Int(2) => match v {
@@ -715,13 +715,13 @@ pub fn key(it: &Item, _cx: &mut MCtx) -> R<MKey> {
         base_iv: vec![],
         params: vec![],
     };
-    let mut seen: Vec<MLabel> = Vec::new();
+    let mut seen: std::collections::HashSet<MLabel> = std::collections::HashSet::new();
     for (l, v) in m {
         let l = label(l)?;
         if seen.contains(&l) {
             return rej_c("key.dup", Class::Dup);
         }
-        seen.push(l.clone());
+        seen.insert(l.clone());
         match l {
             MLabel::Int(1) => {
                 let t = reg_label(v, Reg::KeyType).map_err(|e| Rej { rule: match e.rule { "label.kind" => "key.kty.kind", "label.out-of-range" => "key.kty.range", _ => "key.kty.unregistered" }, class: e.class })?;
@@ -786,7 +786,7 @@ pub fn claims(it: &Item, _cx: &mut MCtx) -> R<MClaims> {
         _ => return rej("cwt.not-map"),
     };
     let mut c = MClaims::default();
-    let mut seen: Vec<MLabel> = Vec::new();
+    let mut seen: std::collections::HashSet<MLabel> = std::collections::HashSet::new();
     let text = |v: &Item, rule: &'static str| -> R<String> {
         match v {
             Item::Text(t) => Ok(t.clone()),
@@ -798,7 +798,7 @@ pub fn claims(it: &Item, _cx: &mut MCtx) -> R<MClaims> {
         if seen.contains(&l) {
             return rej_c("cwt.dup", Class::Dup);
         }
-        seen.push(l.clone());
+        seen.insert(l.clone());
         match l {
             MLabel::Int(1) => c.iss = Some(text(v, "cwt.iss.kind")?),
             MLabel::Int(2) => c.sub = Some(text(v, "cwt.sub.kind")?),
